@@ -42,6 +42,8 @@ def specs(tier):
             out.append(dict(ens="Canonical", atoms="M", table=[["d", key]], decos=[c], depth=d))
     for c in ("fix:0", "fix:1", "fix:0,1"):
         out.append(dict(ens="GrandCanonical", atoms="A3", table=[["d", "D_ball"], ["e", "E_trans"]], decos=[c], depth=d, judge_only="d"))
+    # three trials: an accepted trial, a rejected deletion in front of the fixed atom, a displacement
+    out.append(dict(ens="GrandCanonical", atoms="A3", table=[["d", "D_ball"], ["e", "E_trans"]], decos=["fix:2"], depth=3, judge_only="d"))
     return out
 
 
